@@ -269,6 +269,10 @@ func (aaLogs AppArmorLogs) ParseToProfiles() map[string]*aa.Profile {
 		} else {
 			name = log["profile"]
 		}
+		if name == "" {
+			// A record can name its subject in the label field only
+			name = log["label"]
+		}
 
 		if _, ok := profiles[name]; !ok {
 			header := name
